@@ -128,7 +128,7 @@ Section P.
     pverify C (commitment C r ms) r ms = Accept.
   Proof.
     intros Hr Hm Hl. unfold pverify. fold p q. rewrite (len_ok ms Hl).
-    destruct (q <=? r) eqn:E; [lia|]. rewrite (h_pow_spec false r Hr).
+    destruct (r <? 0) eqn:E0; [lia|]. destruct (q <=? r) eqn:E; [lia|]. cbn [orb]. rewrite (h_pow_spec false r Hr).
     rewrite commit_loop_reduced; try assumption; [|apply powm_range; lia|exact (wp_g _ WF)].
     fold (commitment C r ms). pose proof (commitment_pos r ms ltac:(lia) Hm) as B. fold p in B.
     destruct (commitment C r ms <=? 0) eqn:E1; [lia|]. destruct (p <=? commitment C r ms) eqn:E2; [lia|].
